@@ -47,6 +47,12 @@ func TestVerif(t *testing.T) {
 }
 
 var registry = map[string]func(t *testing.T, c *Collector){
+	"C12": func(t *testing.T, c *Collector) {
+		c.res.Rule = "all interleavings (<= bound preemptions, <= n ticks of the fake clock) of rate-limited writers' back-pressure steps with the real flusher goroutine, the sync ticker and explicit Flush calls; oracle: when nothing is enabled any more, three further fair ticks must release every waiting writer (else stuck-writer), calls return without error and the history is linearizable; non-trivial = two threads alternated on the same lock or file"
+		scs := c12Scenarios(c.job.Tier)
+		c.res.Bound = fmt.Sprintf("%d scenarios, preemption bound %d, %d ticks", len(scs), scs[0].Bound, scs[0].Ticks)
+		runConcScenarios(t, c, scs)
+	},
 	"C06": func(t *testing.T, c *Collector) {
 		c.res.Rule = "all interleavings (<= bound preemptions) of one index-GC or primary-GC cycle running as a thread (every file-system call of the cycle is a scheduling point) with a caller thread aimed at keys whose records live in the files being collected, from multi-file initial states with superseded record lists and freed records; oracle: no call fails, history + quiescent reads linearizable, Flush+Close+reopen reads the same; non-trivial = two threads alternated on the same lock or file"
 		scs := c06Scenarios(c.job.Tier)
